@@ -19,6 +19,9 @@ type AppStats struct {
 	ForkDiffs                                                                      []string
 	ReplicaRuns, NoiseRuns, RestartRuns, Restarts                                  int
 	NoiseChecks, NoiseChecksPassed, NoiseQueries                                   int
+	NoiseFreshChecks, NoiseFreshPassed                                             int
+	NoiseQueriesCompared                                                           int
+	NoiseQueryDiffs                                                                []string
 	ReplicaDiffs, NoiseDiffs, RestartDiffs, NoisePanics                            []string
 	MultiKeyCommits                                                                int
 	TreeOpBad, WriteOrder                                                          []string
@@ -88,6 +91,12 @@ func GenerateCases(seed int64, n, blocks int, outPath, scratch, jsonPath, profil
 				st.NoiseRuns++
 				st.NoiseChecks += ps.Checks
 				st.NoiseChecksPassed += ps.ChecksPassed
+				st.NoiseQueriesCompared += ps.QueriesCompared
+				for _, d := range ps.QueryMismatch {
+					st.NoiseQueryDiffs = append(st.NoiseQueryDiffs, fmt.Sprintf("history %d: %s", i, d))
+				}
+				st.NoiseFreshChecks += ps.FreshChecks
+				st.NoiseFreshPassed += ps.FreshPassed
 				st.NoiseQueries += ps.Queries
 				st.NoisePanics = append(st.NoisePanics, ps.CheckPanics...)
 				st.NoisePanics = append(st.NoisePanics, ps.QueryPanics...)
@@ -103,6 +112,18 @@ func GenerateCases(seed int64, n, blocks int, outPath, scratch, jsonPath, profil
 					bi := int(b.Height) - 1
 					interesting := bi < len(h.Obs) && (len(h.Obs[bi].ValUpdates) > 0 || len(b.Txs) > 2)
 					if (interesting && rr.Intn(3) == 0) || rr.Intn(12) == 0 {
+						rs[b.Height] = true
+					}
+					// always: after a block that applied a governance proposal (the parameters in force
+					// change at that commit), and at every boundary of the short scripted histories
+					if bi < len(h.Obs) {
+						for _, e := range h.Obs[bi].EndEvts {
+							if strings.Contains(e, "applied") {
+								rs[b.Height] = true
+							}
+						}
+					}
+					if h.Seed >= 900000 {
 						rs[b.Height] = true
 					}
 				}
@@ -246,7 +267,7 @@ func writeCases(hs []*History, outPath, jsonPath, evals string) (*AppStats, erro
 			return nil, err
 		}
 	}
-	head := "From Rigo Require Import Base.\nFrom stdpp Require Import gmap.\nFrom Rigo Require Import Spec AppRun Predicates.\nLocal Open Scope Z_scope.\n" +
+	head := "From Rigo Require Import Base.\nFrom stdpp Require Import gmap.\nFrom Rigo Require Import Spec AppRun Predicates EffectCheck.\nLocal Open Scope Z_scope.\n" +
 		SymDefs() + "Definition cases : list acase := [\n"
 	return st, os.WriteFile(outPath, []byte(head+sb.String()), 0o644)
 }
